@@ -224,7 +224,7 @@ func builtinRules(c *Ctx, names []string, ref *effRef, rulePrefix string) {
 
 func checkC11(c *Ctx) {
 	r, t := c.R, c.T
-	r.Explanation = "Decides the plumbing of the 15 field-manipulating builtins on go/ssa: (1) EFFECT-SIG: for each builtin the set of subject reads (variable-first GetKey/GetKeyConv2Str, point-only getPtKey, evaluation of an argument) and of effects (field/tag write with its key provenance keyName(P_i), delete, rename, measurement, stdout, return value), extracted from the runner (one level into helpers), equals the signature documented in fn.md (reference/builtins_effects.json) — e.g. uppercase reads GetKeyConv2Str(keyName(P0)) and writes field keyName(P0) and nothing else; (2) MISSING-NOOP: from the failure edge of the subject lookup no effect call is reachable (set_tag's documented empty tag and get_key's nil return excepted); (3) DATA-ERROR: from the failure edge of url decoding, JSON decoding, regexp compilation and date formatting no effect call is reachable; (4) RETURNS: get_key, len and load_json append exactly one return value on every success path, all others none (typestate over ReturnAppend); (5) CAST-TABLE: every type name CastChecking accepts is mapped by doCast to a conversion (spec of doCast per accepted literal), never to the (nil, Nil) fall-through; (6) ALIAS: every key-taking helper maps `_` to `message`. Not decided: the computed values (trimmed text, formatted string, decoded URL)."
+	r.Explanation = "Decides the plumbing of the 15 field-manipulating builtins on go/ssa: (1) EFFECT-SIG: for each builtin the set of subject reads (variable-first GetKey/GetKeyConv2Str, point-only getPtKey, evaluation of an argument) and of effects (field/tag write with its key provenance keyName(P_i), delete, rename, measurement, stdout, return value), extracted from the runner (one level into helpers), equals the signature documented in fn.md (reference/builtins_effects.json) — e.g. uppercase reads GetKeyConv2Str(keyName(P0)) and writes field keyName(P0) and nothing else; (2) MISSING-NOOP: from the failure edge of the subject lookup no effect call is reachable (set_tag's documented empty tag and get_key's nil return excepted); (3) DATA-ERROR: from the failure edge of url decoding, JSON decoding, regexp compilation and date formatting no effect call is reachable; (4) RETURNS: get_key, len and load_json append exactly one return value on every success path, all others none (typestate over ReturnAppend); (5) CAST-TABLE: every type name CastChecking accepts is mapped by doCast to a conversion (spec of doCast per accepted literal), never to the (nil, Nil) fall-through; (6) ALIAS: every key-taking helper maps `_` to `message`. Not decided: the computed values (trimmed text, formatted string, decoded URL). SUBJECT-OPAQUE: the string form of the subject (result #0 of Task.GetKeyConv2Str, followed through helpers) is never an operand of a comparison in the builtins — whether a builtin acts depends on the key's presence (the lookup's error), not on its text."
 	var ref effRef
 	if !mustRef(c, "builtins_effects.json", &ref) {
 		return
@@ -313,7 +313,7 @@ func constInt2(v sval) (int64, bool) {
 
 func checkC12(c *Ctx) {
 	r, t := c.R, c.T
-	r.Explanation = "Decides the plumbing of the extraction builtins (engine results are trusted): (1) EFFECT-SIG for grok, add_pattern, xml, datetime, default_time and sql_cover against fn.md (reference/builtins_effects.json): the subject is read in its string form through the variable-first lookup and the extracted value is written under the designated key (xml: keyName(P2); grok: the capture names; default_time: point time, key deleted, failure note pl_msg); (2) PATTERN-SCOPE: add_pattern's checker stores the definition in the *current* scope frame (Task.SetPattern → Stack.SetPattern on stackCur), Stack.GetPattern walks the Before chain, Task.GetPattern falls back to the global table only on a miss, StackExitCur drops a frame's patterns and the check pass opens/closes a frame per block (shared with C03 SCOPE) — so a definition is visible only inside its block and nested blocks; (3) PATTERN-ERRORS: the error results of grok.CompilePattern and grok.DenormalizePattern make the checker return a non-nil error (unknown pattern ⇒ rejected at load time) and GrokChecking stores the compiled object only on the success path; (4) CAPTURE-TYPES: Grok maps the Go type of each capture to the type tag (int64→Int, float64→Float, string→String, bool→Bool, nil→Nil) and passes that tag with the value; (5) failure purity (DATA-ERROR) for RunWithTypeInfo, xmlquery.Parse/Query, ObfuscateSQLString, DateFormatHandle, TimestampHandle (default_time's documented failure note excepted) and RETURNS: grok appends exactly one bool on every return path; (6) TIMEZONE: in TimestampHandle a +/- zone must be in the table or an error is returned, and tz[0] is read only under tz != \"\". Not decided: what grok/xmlquery/dateparse/obfuscate extract, time arithmetic, zone data."
+	r.Explanation = "Decides the plumbing of the extraction builtins (engine results are trusted): (1) EFFECT-SIG for grok, add_pattern, xml, datetime, default_time and sql_cover against fn.md (reference/builtins_effects.json): the subject is read in its string form through the variable-first lookup and the extracted value is written under the designated key (xml: keyName(P2); grok: the capture names; default_time: point time, key deleted, failure note pl_msg); (2) PATTERN-SCOPE: add_pattern's checker stores the definition in the *current* scope frame (Task.SetPattern → Stack.SetPattern on stackCur), Stack.GetPattern walks the Before chain, Task.GetPattern falls back to the global table only on a miss, StackExitCur drops a frame's patterns and the check pass opens/closes a frame per block (shared with C03 SCOPE) — so a definition is visible only inside its block and nested blocks; (3) PATTERN-ERRORS: the error results of grok.CompilePattern and grok.DenormalizePattern make the checker return a non-nil error (unknown pattern ⇒ rejected at load time) and GrokChecking stores the compiled object only on the success path; (4) CAPTURE-TYPES: Grok maps the Go type of each capture to the type tag (int64→Int, float64→Float, string→String, bool→Bool, nil→Nil) and passes that tag with the value; (5) failure purity (DATA-ERROR) for RunWithTypeInfo, xmlquery.Parse/Query, ObfuscateSQLString, DateFormatHandle, TimestampHandle (default_time's documented failure note excepted) and RETURNS: grok appends exactly one bool on every return path; (6) TIMEZONE: in TimestampHandle a +/- zone must be in the table or an error is returned, and tz[0] is read only under tz != \"\". Not decided: what grok/xmlquery/dateparse/obfuscate extract, time arithmetic, zone data. SUBJECT-OPAQUE: the string form of the subject (result #0 of Task.GetKeyConv2Str, followed through helpers) is never an operand of a comparison in the builtins — whether a builtin acts depends on the key's presence (the lookup's error), not on its text."
 	r.Trusted = []string{"github.com/GuanceCloud/grok", "github.com/antchfx/xmlquery", "dateparse / time", "DataDog obfuscate"}
 	var ref effRef
 	if !mustRef(c, "builtins_effects.json", &ref) {
